@@ -33,6 +33,14 @@ def plan(tier, seed):
     n = 160 if tier == 'quick' else 2000
     shards = [{'name': 'law_%d' % i, 'kind': 'law', 'n': n, 'seed': seed * 1000 + 220 + i}
               for i in range(11)]
+    ths = gen.threshold_pool('basic')
+    combos = [(m, t) for m in ('JACCARD', 'COSINE', 'DICE') for t in ths]
+    random.Random(seed * 1000 + 219).shuffle(combos)
+    if tier == 'quick':
+        combos = combos[:90]
+    for i in range(3):
+        shards.append({'name': 'tight_%d' % i, 'kind': 'tight', 'N': 30 if tier == 'quick' else 40,
+                       'combos': combos[i::3]})
     shards.append({'name': 'person', 'kind': 'data', 'data': 'person', 'n': 30 if tier == 'quick' else 200,
                    'seed': seed * 1000 + 232})
     shards.append({'name': 'books_a', 'kind': 'data', 'data': 'books', 'rows': 400 if tier == 'quick' else 3100,
@@ -208,8 +216,27 @@ def make_case_call(rng):
     return call, t_lax, t_strict
 
 
+def tight_case(case, rec, ssj):
+    """The laws on tight tables: every size pair <= N exactly on the (laxer) threshold, so the size /
+    prefix / position bounds are exercised in both roles (indexed vs probing side)."""
+    m, t, N = case['measure'], case['threshold'], case['N']
+    sizes = [(a, b) for a in range(1, N + 1) for b in range(1, N + 1)]
+    L, R, groups = gen.tight_tables(m, t, sizes)
+    call = {'api': T.MEASURE_JOIN[m], 'ltable': L, 'rtable': R, 'l_key': 'id', 'r_key': 'id',
+            'l_attr': 's', 'r_attr': 's', 'tok': {'kind': 'ws', 'return_set': True},
+            'allow_missing': False, 'n_jobs': 1}
+    t2 = min(1.0, t + 0.05) if t < 1.0 else 1.0
+    if t2 == t:
+        t, t2 = 0.95, 1.0
+    nt = check_laws(ssj, rec, dict(case, t_attained=t), call, t, t2)
+    rec.count('nontrivial_pairs', nt)
+    return {'nontrivial': nt, 'call': call, 't': (t, t2)}
+
+
 def run_case(case, rec, ssj=None, data=None):
     ssj = ssj or env.load()
+    if case['gen'] == 'tight':
+        return tight_case(case, rec, ssj)
     rng = random.Random(case['seed'])
     if case['gen'] == 'law':
         call, t_lax, t_strict = make_case_call(rng)
@@ -303,6 +330,14 @@ def run_shard(shard, rec):
     reach = monitors.Reach()
     reach.start()
     data = None
+    if shard['kind'] == 'tight':
+        for (m, t) in shard['combos']:
+            case = {'gen': 'tight', 'measure': m, 'threshold': t, 'N': shard['N']}
+            st = tight_case(case, rec, ssj)
+            rec.case(sig=('tight', m, t, shard['N']), nontrivial=st['nontrivial'] > 0, n=7)
+            rec.add('api', st['call']['api'])
+        rec.sample({'workload': 'tight tables', 'N': shard['N'], 'combos': shard['combos'][:3]}, limit=1)
+        shard = dict(shard, n=0)
     for i in range(shard['n']):
         if shard['kind'] == 'law':
             case = {'gen': 'law', 'seed': shard['seed'] * 100000 + i}
